@@ -40,9 +40,7 @@ Barrier = BarrierType()
 
 def _to_naive_utc_time(value: dt.datetime | None) -> dt.datetime | None:
     return (
-        value.astimezone(dt.timezone.utc).replace(tzinfo=None)
-        if value and value.tzinfo
-        else value
+        value.astimezone(dt.timezone.utc).replace(tzinfo=None) if value else value
     )
 
 
